@@ -315,15 +315,46 @@ def check_pass(rep, ix):
     rep.ob('R-C11-PASS', f'{BT}:bit_frame_array_to_las_file', 'selection, channel subset, width and format reach the shared writer unchanged', ok, found=str(_call_args(c[0])) if c else '', node=b, module=m)
 
 
+def check_lis_logical_file(rep, ix):
+    """Which log pass of a LIS logical file is converted: the first one that has frames (a DFSR immediately followed by another
+    DFSR leaves an empty log pass behind, which the next one must replace); CONS tables are collected only before it."""
+    m = ix.module(LT)
+    f = ix.get_func(LT, 'LisLogicalFile.add_index')
+    site = f'{LT}:LisLogicalFile.add_index'
+    rep.fn(site)
+    e = f.args.args[1].arg
+    tops = [n for n in f.body if isinstance(n, ast.If)]
+    ok = False
+    found = ''
+    if len(tops) == 1 and _n(tops[0].test) == f'isinstance({e},FileIndexer.IndexLogPass)' and len(tops[0].body) == 1 and isinstance(tops[0].body[0], ast.If):
+        inner = tops[0].body[0]
+        found = ast.unparse(inner.test)
+        ok = show(nf(inner.test)) == common.nfs('self.last_log_pass is None or self.last_log_pass.logPass.totalFrames == 0') and \
+            [_n(x) for x in inner.body] == [f'self.last_log_pass={e}'] and not inner.orelse
+    rep.ob('R-C11-PASS', site, 'a log pass is taken when none is held yet or the one held has no frames (an empty pass is replaced by the next)', ok,
+           found=found, required='self.last_log_pass is None or self.last_log_pass.logPass.totalFrames == 0', node=f, module=m)
+    ok = False
+    if len(tops) == 1 and len(tops[0].orelse) == 1 and isinstance(tops[0].orelse[0], ast.If):
+        el = tops[0].orelse[0]
+        ok = show(nf(el.test)) == common.nfs(f"isinstance({e}, FileIndexer.IndexTable) and {e}.name == b'CONS'") and any(_n(x) == f'self.cons_table_index_entries.append({e})' for x in el.body)
+    rep.ob('R-C11-PASS', site, 'CONS tables are collected for the well section', ok, node=f, module=m)
+
+
 def run(rep, ix, tier):
     imports.check_import_closure(rep, ix, 'R-IMP', [RT, LT, BT])
     check_select(rep, ix)
     check_well(rep, ix)
     check_gate(rep, ix)
     check_pass(rep, ix)
+    check_lis_logical_file(rep, ix)
+    # channel sub-selection skips the bytes of unselected channels: the skip length rule of C04 decides whether the selected
+    # channels of a converted file carry their own values
+    from . import C04
+    C04.check_len(rep, ix)
+    rep.floor('R-C04-LEN', 7)
     typeflow.check_attrs(rep, ix, 'R-C11-ATTR', [(RT, None), (LT, None), (BT, None)])
     rep.floor('R-C11-SELECT', 20)
     rep.floor('R-C11-WELL', 14)
     rep.floor('R-C11-GATE', 8)
-    rep.floor('R-C11-PASS', 12)
+    rep.floor('R-C11-PASS', 14)
     rep.floor('R-C11-ATTR', 40)
